@@ -72,12 +72,26 @@ def cases(draw, nmax):
             "a": S.sig(draw(st.floats(-3, 3)), 3), "b": S.sig(draw(st.floats(-3, 3)), 3)}
 
 
-def _transform(xi, lam, theta, xi_int=False):
+def _transform(xi, lam, theta, xi_int=False, rec=None):
     from sasmodels.data import empty_sesans
     from sasmodels.direct_model import _make_sesans_transform
     d = empty_sesans([int(v) for v in xi] if xi_int else np.asarray(xi, float), wavelength=np.asarray(lam, float) if not np.isscalar(lam) else lam,
                      zacceptance=(theta, "radians"))
-    return _make_sesans_transform(d)
+    if rec is None:
+        return _make_sesans_transform(d)
+    # a data object serves many calculators: building a transform leaves it as it was, and a second transform
+    # built from the same object is the same transform
+    before = (np.array(d.x, float).copy(), np.array(d.source.wavelength, float).copy())
+    first = _make_sesans_transform(d)
+    after = (np.array(d.x, float), np.array(d.source.wavelength, float))
+    if not (np.array_equal(before[0], after[0]) and np.array_equal(before[1], after[1])):
+        rec.fail("data-modified", "building the transform changed the data object: wavelength %r -> %r"
+                 % (before[1][:3], after[1][:3]))
+    second = _make_sesans_transform(d)
+    if not (np.array_equal(first.q_calc, second.q_calc) and np.array_equal(first._H, second._H)
+            and np.array_equal(first._H0, second._H0)):
+        rec.fail("second-transform-differs", "two transforms built from one data object differ")
+    return first
 
 
 def check_sesans(case, rec):
@@ -88,7 +102,7 @@ def check_sesans(case, rec):
     full = theta >= math.pi / 2 - 1e-12
     rec.cls("grid:" + case["grid"], "acceptance:" + ("full" if full else "restricted"),
             "lambda:" + ("scalar" if np.isscalar(lam) else "per-point"))
-    T = _transform(xi, lam, theta, case.get("xi_int", False))
+    T = _transform(xi, lam, theta, case.get("xi_int", False), rec=rec)
     if case.get("xi_int"):
         rec.cls("xi-as-integer-list")
     q = np.asarray(T.q_calc, float)
